@@ -669,7 +669,7 @@ class Valid(Suite):
     get_media, read_until, readline, pipe, iteration).  Every parse must yield exactly the encoded parts."""
 
     name = 'valid'
-    budget = {'quick': 10000, 'thorough': 150000}
+    budget = {'quick': 7000, 'thorough': 150000}
     case_timeout = 20
 
     def strategy(self, tier):
@@ -689,7 +689,7 @@ class ValidBig(Suite):
     events of 64-16384 bytes, WSGI short reads."""
 
     name = 'valid_big'
-    budget = {'quick': 1600, 'thorough': 20000}
+    budget = {'quick': 1000, 'thorough': 20000}
     case_timeout = 20
 
     def strategy(self, tier):
@@ -807,7 +807,7 @@ class Limits(Suite):
     RequestOptions.media_handlers; WSGI and ASGI requests.  Accepted at the threshold, MultipartParseError one past."""
 
     name = 'limits'
-    budget = {'quick': 6000, 'thorough': 80000}
+    budget = {'quick': 4000, 'thorough': 80000}
     case_timeout = 20
 
     def strategy(self, tier):
@@ -925,7 +925,7 @@ class Corrupt(Suite):
     create no delimiter give exactly the predicted form; truncation before the close delimiter is rejected."""
 
     name = 'corrupt'
-    budget = {'quick': 12000, 'thorough': 200000}
+    budget = {'quick': 8000, 'thorough': 200000}
     case_timeout = 20
 
     def strategy(self, tier):
